@@ -496,8 +496,8 @@ func (v *FnV) concat(st *State, a, b string) string {
 	st.declare(cb, "(Array Int Int)")
 	la := st.define("la", "Int", sx("slen", a))
 	lb := st.define("lb", "Int", sx("slen", b))
-	st.assume(fmt.Sprintf("(forall ((k!c Int)) (! (=> (and (<= 0 k!c) (< k!c %s)) (= (select %s k!c) (sat %s k!c))) :pattern ((select %s k!c))))", la, cb, a, cb))
-	st.assume(fmt.Sprintf("(forall ((k!c Int)) (! (=> (and (<= %s k!c) (< k!c (+ %s %s))) (= (select %s k!c) (sat %s (- k!c %s)))) :pattern ((select %s k!c))))", la, la, lb, cb, b, la, cb))
+	st.axiom(fmt.Sprintf("(forall ((k!c Int)) (! (=> (and (<= 0 k!c) (< k!c %s)) (= (select %s k!c) (sat %s k!c))) :pattern ((select %s k!c))))", la, cb, a, cb))
+	st.axiom(fmt.Sprintf("(forall ((k!c Int)) (! (=> (and (<= %s k!c) (< k!c (+ %s %s))) (= (select %s k!c) (sat %s (- k!c %s)))) :pattern ((select %s k!c))))", la, la, lb, cb, b, la, cb))
 	return fmt.Sprintf("(mkstr %s 0 (+ %s %s))", cb, la, lb)
 }
 
@@ -734,7 +734,7 @@ func (v *FnV) bytesToString(st *State, val Value) Value {
 	if bits, _ := intInfo(sl.Elem()); bits == 8 {
 		_, h := v.elemHeap(st, sl.Elem())
 		st.assume(sEq(sx("slen", n), sx("sllen", val.S)))
-		st.assume(fmt.Sprintf("(forall ((k!c Int)) (! (=> (and (<= 0 k!c) (< k!c (slen %s))) (= (sat %s k!c) (select (select %s (sref %s)) (+ (sloff %s) k!c)))) :pattern ((sat %s k!c))))", n, n, h, val.S, val.S, n))
+		st.axiom(fmt.Sprintf("(forall ((k!c Int)) (! (=> (and (<= 0 k!c) (< k!c (slen %s))) (= (sat %s k!c) (select (select %s (sref %s)) (+ (sloff %s) k!c)))) :pattern ((sat %s k!c))))", n, n, h, val.S, val.S, n))
 	}
 	return Value{T: tString, S: n}
 }
@@ -749,7 +749,7 @@ func (v *FnV) stringToBytes(st *State, val Value, t types.Type, sl *types.Slice)
 		name, h := v.elemHeap(st, sl.Elem())
 		arr := v.c.freshName("arr")
 		st.declare(arr, "(Array Int Int)")
-		st.assume(fmt.Sprintf("(forall ((k!c Int)) (! (=> (and (<= 0 k!c) (< k!c (slen %s))) (= (select %s k!c) (sat %s k!c))) :pattern ((select %s k!c))))", val.S, arr, val.S, arr))
+		st.axiom(fmt.Sprintf("(forall ((k!c Int)) (! (=> (and (<= 0 k!c) (< k!c (slen %s))) (= (select %s k!c) (sat %s k!c))) :pattern ((select %s k!c))))", val.S, arr, val.S, arr))
 		st.setHeap(name, sStore(h, ref, arr))
 	}
 	return Value{T: t, S: res}
